@@ -374,6 +374,31 @@ def judge_refresh(rec, run, exp, out, err, cands, rejects, pages, where):
     return f
 
 
+def probe_handler(scratch):
+    """What does the tree's refresh do with an AstroPix entry whose save() raises NotActionableError, followed by a good one?
+    -> "aborts" (the handler as written: the run dies, G01's observation) | "recorded" (rejects/<id> touched, the run goes on) | "other" """
+    root = tempfile.mkdtemp(prefix="g08h-", dir=scratch)
+    try:
+        rec = {"flav": "astropix", "size": 0, "tail": "404", "evs": [],
+               "feed0": [{"name": "m", "var": "plain", "type": "Observation", "proj": "SIN", "hasid": True, "tag": 1},
+                         {"name": "n", "var": "plain", "type": "Observation", "proj": "TAN", "hasid": True, "tag": 2}]}
+        web = Web()
+        server = FeedServer(rec, web)
+        bench = Bench(root, "astropix")
+        server.begin_run()
+        with patched(web):
+            out, err = bench.command("refresh")
+        cands, rejects = observe_refresh(bench, "astropix")
+        seen = {"outcome": out, "error": err, "candidates": sorted(cands), "rejects": rejects}
+        if out == "died" and not cands and not rejects:
+            return "aborts", seen
+        if out == "ok" and sorted(cands) == ["pub_imgn"] and rejects == ["pub_imgm"]:
+            return "recorded", seen
+        return "other", seen
+    finally:
+        shutil.rmtree(root, ignore_errors=True)
+
+
 # ------------------------------------------------------------------------------------------------
 # the page scanner
 # ------------------------------------------------------------------------------------------------
@@ -819,12 +844,12 @@ def _main(ctx, pool, scratch, quick, t0):
     P = "Q" if quick else "T"
 
     def tlc_fs(flav, handler="aborts", emit=True):
-        name = "MCG08%s%s" % ("Dj" if flav == "djangoplicity" else "Ax", "" if handler == "aborts" else "Rec")
+        name = "MCG08%s%s%s" % ("Dj" if flav == "djangoplicity" else "Ax", "" if handler == "aborts" else "Rec", "" if emit else "Only")
         if flav == "djangoplicity":
             setups = "DjSetups(%d, %d)" % (maxlen, 1 if quick else 2)
             kinds, maxev = ["grow", "shrink"], 1
         else:
-            setups = "AxSetups(%s, %d, 1)" % ("AxPoolQ" if quick or handler != "aborts" else "AxPoolT", 3)
+            setups = "AxSetups(%s, %d, 1)" % ("AxPoolQ" if quick or not emit else "AxPoolT", 3)
             kinds, maxev = ["grow"], 1
         inv = FS_INV + (["Emit"] if emit else [])
         if handler == "recorded":
@@ -856,12 +881,18 @@ def _main(ctx, pool, scratch, quick, t0):
 
     findings = []
     stats_total = {}
+    handler, seen = probe_handler(scratch)
+    ctx.note("refresh_with_a_refused_astropix_entry", {"model": handler, "observed": seen})
+    if handler == "other":
+        ctx.drift("refresh over [a SIN entry, a TAN entry] implements neither handler of the spec: %s" % (seen,))
+        handler = "aborts"
+    ideals_ax = [i for i in FS_IDEALS["astropix"] if handler == "aborts" or i != "NotActionableIsSkipped"]
     with cf.ThreadPoolExecutor(max_workers=6) as tex:
         f_dj = tex.submit(tlc_fs, "djangoplicity")
-        f_ax = tex.submit(tlc_fs, "astropix")
+        f_ax = tex.submit(tlc_fs, "astropix", handler)
         f_fa = tex.submit(tlc_fa)
         f_scan = tex.submit(tlc_scan)
-        f_rec = tex.submit(tlc_fs, "astropix", "recorded", False) if not quick else None
+        f_rec = tex.submit(tlc_fs, "astropix", "recorded" if handler == "aborts" else "aborts", False) if not quick else None   # the other handler
         f_named = tex.submit(tlc_fa_named) if not quick else None
 
         futs = []
@@ -873,12 +904,13 @@ def _main(ctx, pool, scratch, quick, t0):
         # ---- the protocol
         proto_note = {}
         refuted = {}
+        sampled = []
         for flav, fut in (("djangoplicity", f_dj), ("astropix", f_ax)):
             r, recs = fut.result()
             finals = [x for x in recs if x["final"]]
             if not finals:
                 ctx.machinery("TLC printed no behaviour end for %s" % flav)
-            for inv in FS_IDEALS[flav]:
+            for inv in (FS_IDEALS[flav] if flav == "djangoplicity" else ideals_ax):
                 wit = [x for x in recs if x["ideal"][inv] is False]
                 if not wit:
                     ctx.machinery("no reachable state of the %s model refutes %s: the model has lost the deviation it is meant to expose" % (flav, inv))
@@ -891,7 +923,10 @@ def _main(ctx, pool, scratch, quick, t0):
                                            "run": w["runs"], "ends": w["last"]["pc"], "pages_requested": w["last"]["log"],
                                            "candidates": [uid_string(c["name"], c["alt"], flav) + ("" if c["full"] else " (EMPTY)") for c in w["last"]["c"]]}}
             if quick:
-                chosen, ngroups = stratified(ctx, finals, proto_class, 3, 2600 if flav == "djangoplicity" else 2000)
+                chosen, ngroups = stratified(ctx, finals, proto_class, 4, 3600 if flav == "djangoplicity" else 2000)
+            elif len(finals) > 200000:
+                chosen, ngroups = stratified(ctx, finals, proto_class, 60, 200000)     # every class of behaviour, up to 60 of each
+                sampled.append(flav)
             else:
                 chosen, ngroups = finals, len(set(proto_class(x) for x in finals))
             proto_note[flav] = {"distinct_states": r.distinct, "transitions": r.generated, "behaviour_ends": len(finals), "classes": ngroups, "replayed": len(chosen),
@@ -914,11 +949,11 @@ def _main(ctx, pool, scratch, quick, t0):
             wit = [x for x in cases if x["ideal"][inv] is False]
             if not wit:
                 ctx.machinery("no metadata case refutes %s" % inv)
-            w = min(wit, key=lambda x: json.dumps(x["cs"], sort_keys=True))
+            w = min(wit, key=lambda x: (x["pr"]["out"] != "ok", json.dumps(x["cs"], sort_keys=True)))
             fa_ref[inv] = {"refuting_cases": len(wit), "a_witness": w["cs"], "process": w["pr"]["out"] + (" (%s)" % w["pr"]["why"] if w["pr"]["why"] else "")}
         replayable = [x for x in cases if x["pr"]["out"] != "irrational"]
         if quick:
-            deep, _ng = stratified(ctx, replayable, case_class, 2, 900)
+            deep, _ng = stratified(ctx, replayable, case_class, 3, 1300)
             default_fx = {"orig": True, "spatial": "TAN", "urlext": "png", "refurl": "given"}
             got = set(id(x) for x in deep)
             deep += [x for x in replayable if id(x) not in got and (x["cs"]["fx"] != default_fx or x["cs"]["frame"] != "ICRS")]   # every fetch variant / frame
@@ -970,7 +1005,7 @@ def _main(ctx, pool, scratch, quick, t0):
         ctx.note("drift_counts", seen_d)
     if stats_total.get("process_ok", 0) < 50 or stats_total.get("process_raises", 0) < 10:
         ctx.machinery("the metadata cases no longer exercise process-todos on both sides (%s)" % stats_total)
-    ctx.exhaustive = not quick
+    ctx.exhaustive = (not quick) and not sampled
     ctx.note("tlc_feed_protocol", proto_note)
     ctx.note("tlc_feed_protocol_theorems", FS_INV)
     ctx.note("tlc_refuted_ideals_protocol", refuted)
